@@ -27,7 +27,11 @@ ScaleTwice == {[op |-> "scale", x |-> [op |-> "scale", x |-> a, m |-> m], m |-> 
 
 (* a power of a power: exponents must be multiplied and reduced to lowest terms (x^(1/4))^2 = x^(1/2), also through a scale factor *)
 PP == { <<<<1, 4>>, <<2, 1>>>>, <<<<1, 6>>, <<3, 1>>>>, <<<<3, 4>>, <<2, 1>>>>, <<<<1, 2>>, <<2, 1>>>>, <<<<2, 1>>, <<1, 2>>>>, <<<<2, 3>>, <<3, 2>>>>,
-        <<<<1, 6>>, <<2, 1>>>>, <<<<3, 2>>, <<2, 3>>>>, <<<<-1, 4>>, <<2, 1>>>>, <<<<1, 4>>, <<-2, 1>>>>, <<<<1, 4>>, <<6, 1>>>> }
+        <<<<1, 6>>, <<2, 1>>>>, <<<<3, 2>>, <<2, 3>>>>, <<<<-1, 4>>, <<2, 1>>>>, <<<<1, 4>>, <<-2, 1>>>>, <<<<1, 4>>, <<6, 1>>>>,
+        \* integer powers of integer powers (also spelled with singular names: squared(squared(second))), the identity power, the inverse twice
+        <<<<2, 1>>, <<2, 1>>>>, <<<<2, 1>>, <<-1, 1>>>>, <<<<3, 1>>, <<2, 1>>>>, <<<<1, 1>>, <<2, 1>>>>, <<<<2, 1>>, <<1, 1>>>>, <<<<-1, 1>>, <<-1, 1>>>>, <<<<-2, 1>>, <<-2, 1>>>> }
+\* a power of a product and of a quotient (squared(newton * meter))
+PowProd == {[op |-> "pow", x |-> [op |-> o, l |-> a, r |-> b], r |-> r] : o \in {"mul", "div"}, a \in Leaf(Ids2), b \in Leaf(Ids2), r \in {<<2, 1>>, <<-1, 1>>, <<1, 2>>, <<3, 1>>}}
 PowPow == {[op |-> "pow", x |-> [op |-> "pow", x |-> a, r |-> r[1]], r |-> r[2]] :
               a \in Leaf(Ids2) \cup {[op |-> "scale", x |-> b, m |-> m] : b \in Leaf(Ids2), m \in Mags2}, r \in PP}
 
@@ -44,7 +48,7 @@ PureNamed(e) == IsLeafLike(e) \/ (e.op \in {"mul", "div"} /\ PureNamed(e.l) /\ P
 AsSet(f) == {[b |-> k, n |-> f[k][1], d |-> f[k][2]] : k \in DOMAIN f}
 
 VARIABLES e
-Init == e \in D1All \cup D2 \cup ScaleTwice \cup PowPow
+Init == e \in D1All \cup D2 \cup ScaleTwice \cup PowPow \cup PowProd
 Next == UNCHANGED e
 Emit == PrintT(<<"CASE", ToJson([e |-> e, dim |-> AsSet(DenDim(e)), mag |-> AsSet(DenMag(e)),
                                  pure |-> PureNamed(e), named |-> IF PureNamed(e) THEN AsSet(NamedExp(e)) ELSE {},
